@@ -414,10 +414,15 @@ def _is_count_key(k):
         a = mono[0][0]
         if a[0] == "call" and a[1] == "len":
             continue
+        if a[0] == "mcall" and (a[1].startswith("get_number_of_") or a[1] in _COUNT_METHODS):
+            continue  # a method that reports how many (children, nodes, edges): never negative
         if a[0] == "cond" and all(_const_of_key(v) in (0, 1) for _, v in a[1]):
             continue
         return False
     return True
+
+
+_COUNT_METHODS = frozenset({"out_degree", "in_degree", "num_nodes", "num_edges", "number_of_nodes", "number_of_edges"})
 
 
 def g_cmp(op, a, b, keys=False):
@@ -1130,9 +1135,10 @@ class Frame:
         if isinstance(s, (ast.Import, ast.ImportFrom, ast.Global, ast.Nonlocal)):
             return [(st, ("fall",))]
         if isinstance(s, (ast.FunctionDef, ast.ClassDef)):
-            st.env[s.name] = Poly.atom(("localdef", s.name))
+            # (two definitions of one name under complementary tests are two functions: keyed by position)
+            st.env[s.name] = Poly.atom(("localdef", s.name, s.lineno))
             if isinstance(s, ast.FunctionDef):
-                self.I.__dict__.setdefault("localdefs", {})[(self.fi.qualname, s.name)] = (s, self.fi, self.cls)
+                self.I.__dict__.setdefault("localdefs", {})[(self.fi.qualname, s.name, s.lineno)] = (s, self.fi, self.cls)
             return [(st, ("fall",))]
         if isinstance(s, ast.Delete):
             for t in s.targets:
@@ -1306,6 +1312,17 @@ class Frame:
             els = part(a[2][0]) + part(a[2][1])
             if all(e is not None for e in els) and len(els) <= 16:
                 return els
+        if a is not None and a[0] == "call" and a[1] == "reversed" and len(a[2]) == 1 and not a[3]:
+            # reversed(list(enumerate(xs))): the pairs (i, xs[i]) for i = len(xs)-1 .. 0, as the count-down range spells them
+            inner = key_atom(a[2][0]) if _is_polykey(a[2][0]) else None
+            while inner is not None and inner[0] == "call" and inner[1] in ("list", "tuple") and len(inner[2]) == 1 and _is_polykey(inner[2][0]):
+                inner = key_atom(inner[2][0])
+            if inner is not None and inner[0] == "call" and inner[1] == "enumerate" and len(inner[2]) == 1 and not inner[3] and _is_polykey(inner[2][0]):
+                xs = poly_from_key(inner[2][0])
+                n = Poly.atom(("call", "len", (xs.key(),), ()))
+                rng = Poly.atom(("call", "range", tuple(vkey(x) for x in _range_args([n - Poly.const(1), Poly.const(-1), Poly.const(-1)])), ()))
+                idxs = self.domain_elements(rng, node)
+                return [ATuple([i_, Poly.atom(("sub", xs.key(), vkey(i_)))]) for i_ in idxs]
         if a is not None and a[0] == "call" and a[1] == "zip":
             return [ATuple([Poly.atom(("elem", x, i)) for x in a[2]]) for i in range(K_ELEMS)]
         if a is not None and a[0] == "call" and a[1] == "enumerate" and len(a[2]) == 1:
@@ -1972,7 +1989,11 @@ class Frame:
 
     def e_DictComp(self, e, st):
         def elt(cur):
-            return ATuple([self.eval(e.key, cur), self.eval(e.value, cur)])
+            k, v = self.eval(e.key, cur), self.eval(e.value, cur)
+            f = cur.env.get("@filter", TRUE)
+            if f != TRUE and isinstance(v, Poly):
+                v = make_cond([(f, v), (TRUE, Poly.atom(("absent",)))])  # an entry the filter leaves out
+            return ATuple([k, v])
 
         items, doms = self.comprehension(elt, e.generators, st)
         d = ADict(doms=doms)
@@ -2042,15 +2063,38 @@ class Frame:
             alts = _cond_alternatives(fv) if isinstance(fv, Poly) else None
             refs = alts if alts is not None else ([(TRUE, fv)] if isinstance(fv, Poly) else [])
             fa = fv.as_atom() if isinstance(fv, Poly) else None
-            ld = self.I.__dict__.get("localdefs", {}).get((self.fi.qualname, fa[1])) if (fa is not None and fa[0] == "localdef") else None
+            if alts is not None and len(alts) > 1 and all(isinstance(r, Poly) and r.as_atom() is not None and r.as_atom()[0] == "localdef" for _, r in alts):
+                # one of several local functions, chosen by a test: the call of each under its test
+                outs = []
+                for g_, r_ in alts:
+                    s2 = State(st.env, st.guards + ([g_] if g_ != TRUE else []))
+                    s2.env[f.id] = r_
+                    outs.append((g_, self.e_Call(e, s2)))
+                    for k_, v_ in s2.env.items():
+                        if isinstance(k_, tuple) and k_ not in st.env:
+                            st.env[k_] = v_
+                return make_cond(outs)
+            ld = self.I.__dict__.get("localdefs", {}).get((self.fi.qualname,) + tuple(fa[1:])) if (fa is not None and fa[0] == "localdef") else None
             if ld is not None and len(self.I.stack) < self.I.max_depth and (self.fi.qualname + "." + fa[1]) not in self.I.stack:
                 # a function defined inside this one: its body, reading the enclosing function's variables
                 from .model import FunctionInfo
 
                 node_, outer, cls_ = ld
-                nfi = self.I.prog.functions.get(outer.qualname + "." + fa[1]) or FunctionInfo(outer.qualname + "." + fa[1], node_, self.module, cls=None, parent=outer)
+                nfi = self.I.prog.functions.get(outer.qualname + "." + fa[1])
+                if nfi is None or nfi.node is not node_:
+                    nfi = FunctionInfo(outer.qualname + "." + fa[1], node_, self.module, cls=None, parent=outer)
                 own = {a.arg for a in node_.args.posonlyargs + node_.args.args + node_.args.kwonlyargs}
                 carried = {k: v for k, v in st.env.items() if isinstance(k, tuple) or k not in own}
+                # defaults that capture the enclosing function's variables (`def f(col, sample=sample)`) are evaluated
+                # in the enclosing frame
+                pos_ = node_.args.posonlyargs + node_.args.args
+                kwargs = dict(kwargs)
+                for prm, dflt in zip(pos_[len(pos_) - len(node_.args.defaults):], node_.args.defaults):
+                    if pos_.index(prm) >= len(args) and prm.arg not in kwargs and any(isinstance(x, ast.Name) and x.id in st.env for x in ast.walk(dflt)):
+                        kwargs[prm.arg] = self.eval(dflt, st)
+                for prm, dflt in zip(node_.args.kwonlyargs, node_.args.kw_defaults):
+                    if dflt is not None and prm.arg not in kwargs and any(isinstance(x, ast.Name) and x.id in st.env for x in ast.walk(dflt)):
+                        kwargs[prm.arg] = self.eval(dflt, st)
                 saved = Event.prefix
                 Event.prefix = tuple(saved) + tuple(st.guards)
                 try:
@@ -2061,7 +2105,8 @@ class Frame:
                     if isinstance(k, tuple):
                         st.env[k] = v
                 return res
-            if refs and not kwargs and all(isinstance(r, Poly) and r.as_atom() is not None and r.as_atom()[0] in ("g", "attrgetter", "itemgetter") for _, r in refs):
+            if refs and not kwargs and all(isinstance(r, Poly) and r.as_atom() is not None and r.as_atom()[0] in ("g", "attrgetter", "itemgetter", "attr") for _, r in refs):
+                # (`deg = graph.out_degree; deg(n)`: a bound method kept in a local is called as map() would call it)
                 return make_cond([(g, self.apply_ref(r, list(args), st, e)) for g, r in refs])
             return self.opaque_call("local:" + show(fv) if not isinstance(fv, str) else fv, args, kwargs, st, e)
         raise Unsupported("call of %s" % ast.unparse(f))
@@ -2163,6 +2208,11 @@ class Frame:
                 return Poly.const(len(v.items))
             if isinstance(v, str):
                 return Poly.const(len(v))
+            if isinstance(v, ADict) and v.items and v.doms and any(_maybe_absent(x) for _, x in v.items.values()):
+                tot = Poly.const(0)  # a filtered dict comprehension: one entry per element the filter keeps
+                for _, x in v.items.values():
+                    tot = tot + _presence(x)
+                return tot
             if isinstance(v, AList) and any(_maybe_absent(x) for x in v.items):
                 # filtered list: count the elements that are present
                 tot = Poly.const(0)
@@ -2182,6 +2232,19 @@ class Frame:
             return Poly.const(fn(a.const_value() for a in args))
         if dotted == "range":
             return Poly.atom(("call", "range", tuple(vkey(a) for a in _range_args(args)), ()))
+        if dotted in ("filter", "itertools.filterfalse", "filterfalse") and len(args) == 2 and not kwargs and isinstance(args[0], Poly) and "filter" not in st.env and "filterfalse" not in st.env:
+            # filter(f, xs) is [x for x in xs if f(x)]; filterfalse its complement
+            fref, it = args
+            els = self.domain_elements(it, node)
+            concrete = isinstance(it, (AList, ATuple)) and not getattr(it, "doms", None)
+            doms = list(getattr(it, "doms", [])) if isinstance(it, AList) else ([] if concrete else [vkey(it)])
+            out = []
+            for e_ in els:
+                t = truth_of(self.apply_ref(fref, [e_], st, node))
+                if dotted != "filter":
+                    t = g_not(t)
+                out.append(make_cond([(t, e_), (TRUE, Poly.atom(("absent",)))]))
+            return AList(out, doms)
         if dotted == "map" and len(args) == 2 and not kwargs:
             fref, it = args
             els = self.domain_elements(it, node)
@@ -2340,7 +2403,11 @@ class Frame:
             if fi is None and a[1] in ("str", "int", "float", "len", "list", "tuple", "set", "sorted", "sum", "max", "min", "abs"):
                 return self.call_named(a[1], a[1], list(args), {}, st, node)  # the builtin, with the semantics a direct call has
             nm = a[1].split(".")[-1]
+            if fi is None and "." in a[1] and not a[1].startswith("phyclone.") and a[1] not in ALIASES and nm not in ALIASES:
+                return self.call_named(a[1], a[1], list(args), {}, st, node)  # a library function: named as a direct call names it
             return self.opaque_call(ALIASES.get(a[1], ALIASES.get(nm, nm)), args, {}, st, node)
+        if a is not None and a[0] == "attr" and a[2] == "__contains__" and len(args) == 1:
+            return g_cmp("in", args[0], poly_from_key(a[1]) if _is_polykey(a[1]) else Poly.atom(a[1]))  # d.__contains__(x) is `x in d`
         if a is not None and a[0] == "attr":
             self.I.events.append(Event("." + a[2], args, {}, st.guards, node, recv=None))
             return Poly.atom(("mcall", a[2], a[1], tuple(vkey(x) for x in args), ()))
@@ -3173,6 +3240,15 @@ class Valuation:
             r = self.atom(key_atom(cur))  # (the atom's own value, not its rounded image: both spellings must hash alike)
             self.cache[a] = r
             return r
+        if t == "sub" and len(a) == 3 and _is_polykey(a[1]) and _const_of_key(a[2]) in (0, 1):
+            # the i-th pair of M.items(), taken apart by position: the i-th key / value of M
+            ea = key_atom(a[1])
+            if ea is not None and ea[0] == "elem" and len(ea) == 3 and _is_polykey(ea[1]):
+                da = key_atom(ea[1])
+                if da is not None and da[0] == "mcall" and da[1] == "items" and not da[3] and not da[4]:
+                    r = self.atom(("elemk" if _const_of_key(a[2]) == 0 else "elemv", da[2], ea[2]))
+                    self.cache[a] = r
+                    return r
         if t == "sub" and len(a) == 3:
             ia = key_atom(a[2]) if isinstance(a[2], tuple) else None
             if ia is not None and ia[0] in ("elem", "elemk") and len(ia) == 3 and ia[1] == a[1]:
